@@ -267,3 +267,14 @@ PROPS["C13"] = {
     "level_text": "Machine-checked Lean 4 theorems about Omaha.Gen, for every program and every schedule (by the invariant GInv over all reachable states: init_inv, runOps_post, pollTask_inv, pollNext_inv, fire_inv): stream_is_fifo (the items received are a prefix of the program's yields, in order: none lost, duplicated or reordered; drive_conserve: delivered ++ queued ++ still-to-push is always the yield sequence), completes_once + allOk_complete_all_items (Complete is returned at most once, only after every item, with the program's return value; before it only items or Pending, after it None forever), queue_at_most_one, no_progress_while_untaken (backpressure: while an emitted item is untaken, polling the task changes nothing — code after an emission runs only in a later poll than the one that delivered it), unwoken_pending_is_external_wait + fire_wakes + spurious_poll_pending (no_lost_wakeup: a Pending without a wake is a registered wait on an unfired external event whose firing wakes the task; every other Pending has already woken the root waker; spurious polls are harmless), runOps_settled / pollTask_is_settled; and runInstall_trace (SM model: every progress value, in order, directly after the install call and before its outcome is acted on). Tied to async_generator.rs by the gen stream (poll-by-poll, incl. wake flags) and to state_machine.rs by the sm stream under a wake-only executor.",
     "level_note": "Trusted: Lean kernel; the hand-written model of the channel and of poll_next; harness and diff. Partial: liveness under fairness (strict_executor_live) is not stated as a theorem — its safety core (no_lost_wakeup) is; into_yielded / into_complete / into_try_stream are thin filters over the same stream and are not modelled.",
 }
+
+PROPS["C17"] = {
+    "lean_modules": ["Omaha.Props.C17"],
+    "streams": [{"name": "mock", "file": "mock", "args": ["mock"]}],
+    "rule": "stream mock: mock_omaha_server::handle_request is called in-process with requests built by the real RequestBuilder (update-check + ping requests, or event reports) for a 1..4-app set drawn in any order from 7 ids, with cohorts and all request parameters, a service URL with or without path / query / pre-existing or bare cup2key, decorated by the real StandardCupv2Handler configured with the server's latest key, one of its historical keys, an unknown key id, a known id with another key pair, or no CUP; the server is configured per app with each of the five response kinds, version / cohort / updates-disabled assertions that hold or not, an extra or missing app or no app at all, an ETag override, require_cup; the reply is parsed by the real client parser and verified by the real verifier for this exchange and against three other exchanges (other response body, other nonce, other request body); compared with the model: outcome (answer / 500 / assertion panic), response bytes, ETag kind, decoded document (canonical dump of every field), verification verdict against the specification and against the Lean verifier run on the mock's own signature; non-trivial = every case; distinct = (app count, key relation, URL, request kind, response kinds)",
+    "trusted_extra": ["modelled, not verified: serde_json::Value key order (sorted) and to_vec, the url crate's query_pairs as far as the client's own cup2key parameter is concerned (no percent-decoding), hyper's Request/Response types; the TCP serving code and main.rs are outside the property (in-process handle_request)",
+                      "the cryptographic hypothesis of client_verifies_mock_etag (a signature made by a key pair verifies under its public key) is an explicit hypothesis; the correspondence checks it on every signed reply with the real p256 and with the Lean P-256"],
+    "assumptions": ["the client parser must reject the InvalidResponse kind — that is the configured outcome"],
+    "level_text": "Machine-checked Lean 4 theorems: mock_apps_in_order + appVal_shape + appVal_id (one response app per requested app, in request order, with the requested id and the configured update check), client_accepts_mock_doc + decode_appVal + decode_responseVal / _err + decode_offer / decode_noupdate / decode_invalid / decode_updateCheckVal (the client's decoder accepts the server's document field for field for every configuration — and rejects exactly the deliberately invalid kind), mock_digest_eq_client (the digest the server signs is the client's transaction hash for the client's own cup2key, for every hash function), holdsKey_iff + inducedEtag_signed (an ETag is produced iff the named key id is the latest or a historical one), client_verifies_mock_etag (under the hypothesis that the signature verifies under the registered key, the client's verifier accepts hex(sig):hex(sha256(request)) for this exchange and returns the signature; uses hex_decode_encode, etagText_chars), etag_for_no_other (C01's injectivity: acceptance for another exchange needs a signature valid for another message), setResponses_effect / setResponses_keeps_keys (reconfiguration). Tied to mock-omaha-server/src/lib.rs by the in-process differential run with the real client on both ends.",
+    "level_note": "Trusted: Lean kernel; the hand-written model of the mock server; harness and diff. Partial: 'driving the real state machine against the in-process mock' is covered by stream smmock once registered (see DESIGN.md); sockets / hyper serving are out of scope.",
+}
